@@ -15,7 +15,9 @@ for d in sorted(glob.glob(os.path.join(HERE, 'seeded', '*'))):
     und = [l for l in out if l.startswith('UNDECIDED')]
     vio = [l for l in out if l.startswith('VIOLATION')]
     dm = (m.get('confirmed') or {})
-    if dm.get('demo_exit_with_change') == 0:
+    if m.get('judged'):
+        how = '%s: check exit %s' % (m['judged'], rc)
+    elif dm.get('demo_exit_with_change') == 0:
         how = 'the change no longer breaks the property on the current /repo (demo passes): check exit %s' % rc
     elif rc == 1:
         how = 'caught (exit 1): ' + ('obligation ' + ', '.join(sorted({re.sub(r'.*replays/[A-Z0-9]+-', '', l.split('replay=')[1]).split('.json')[0][:60] for l in vio}))[:160] if vio else '')
